@@ -96,6 +96,20 @@ def queue_ops(ctx: Ctx):
     return out
 
 
+def rule_producers(ctx: Ctx, rule: str):
+    """Only put() adds to the queue (a trigger that was taken out - e.g. the activation trigger - is never put back)."""
+    rep, k = ctx.rep, ctx.k
+    n = 0
+    for fn in ctx.p.all_functions():
+        for nd in own_nodes(fn.node):
+            if isinstance(nd, ast.Call) and isinstance(nd.func, ast.Attribute) and isinstance(nd.func.value, ast.Attribute) \
+                    and nd.func.value.attr == k.queue_attr and nd.func.attr in ("append", "appendleft", "insert", "extend", "extendleft"):
+                n += 1
+                rep.check(fn.name == "put" and fn.cls is k.base, rule, fn.loc(nd), "only put() adds to the queue: a trigger that was taken out "
+                          "(the activation trigger included) is never queued a second time", fn.key, norm_stmt(nd))
+    rep.floor(rule, "producer sites", n, 1)
+
+
 def rule_fifo(ctx: Ctx):
     rep, k = ctx.rep, ctx.k
     rep.check(k.queue_ctor == "deque", "C03.fifo", ctx.p.cls("BaseEngine").method("__init__").loc(),
@@ -375,4 +389,30 @@ def rule_release(ctx: Ctx):
     c04.rule_clear(ctx, rule="C03.first")
 
 
-RULES = [rule_put, rule_fifo, rule_elect, rule_rtc, rule_first, rule_nonrtc, rule_guarded_pop, rule_depth, rule_release]
+def rule_one_engine(ctx: Ctx, rule: str = "C03.elect"):
+    """One queue and one lock per machine for its whole life: the engine (which owns both) is installed when the machine
+    is built or restored and never replaced - a second engine would have a free lock and an empty queue while the first
+    one is still draining (nested sends would start at once instead of being queued)."""
+    rep = ctx.rep
+    g = callgraph(ctx)
+    sm = ctx.p.cls("StateMachine")
+    family = {sm.name} | {c.name for c in ctx.p.subclasses(sm)}
+    n = 0
+    for fn in ctx.p.all_functions():
+        if isinstance(fn.node, ast.Lambda):
+            continue
+        for nd in own_nodes(fn.node):
+            is_store = isinstance(nd, ast.Attribute) and isinstance(nd.ctx, (ast.Store, ast.Del)) and nd.attr == "_engine"
+            is_setattr = isinstance(nd, ast.Call) and isinstance(nd.func, ast.Name) and nd.func.id == "setattr" and len(nd.args) >= 2 \
+                and isinstance(nd.args[1], ast.Constant) and nd.args[1].value == "_engine"
+            if not (is_store or is_setattr):
+                continue
+            n += 1
+            ok = fn.cls is not None and fn.cls.name in family and fn.name in ("__init__", "__setstate__")
+            if not ok and ctx.is_new(fn):  # a helper introduced later (method or module function)
+                ok = g.only_reached_through(fn, {"__init__", "__setstate__"}, family)[0]
+            rep.check(ok, rule, fn.loc(nd), "the engine is installed only while the machine is built or restored", fn.key, norm_stmt(nd))
+    rep.floor(rule, "sites that install the engine", n, 2)
+
+
+RULES = [rule_put, rule_fifo, rule_elect, rule_rtc, rule_first, rule_nonrtc, rule_guarded_pop, rule_depth, rule_release, rule_one_engine]
